@@ -16,7 +16,7 @@ RULE = ("Coq: Properties/C02.v over gen/Builtins.v (arity literal and every arg_
         "of eval_built_in_call / eval_built_in_method_call, regenerated from eval.rs on every run). Dynamic: on the real "
         "binary (JSON session, one temp working directory per session, stdin closed) every built-in function and method "
         "x every arity 0..n+1 x arguments drawn from one representative per value kind (Int, Float, String, Bool, Unit, "
-        "List, empty List, Tuple, Dict, closure, built-in function value, Option, Result, user struct, user enum value, "
+        "List, empty List, heterogeneous List (literal / appended), Tuple, Dict, closure, built-in function value, Option, Result, user struct, user enum value, "
         "Path, namespace) plus the i64 extremes -- the full product at the declared arity, a 3-kind sample per position "
         "at the other arities; methods on receivers of every kind, on several receivers of the right type, and on user "
         "structs / enums NAMED like the built-in type (which reach the built-in arm with a wrong receiver). A case fails "
@@ -61,6 +61,10 @@ POOL = [
     ("Namespace", "reflect"),
     ("IntMax", str(MAX)), ("IntMin", str(MIN)), ("IntNeg", "-1"), ("IntZero", "0"), ("EmptyString", '""'),
     ("NonAscii", '"hé\U0001F600"'),
+    # containers whose recorded element type is not an invariant of their contents (a list literal records the type of
+    # its last element, append records the type of the appended value): built-ins that trust the recorded type
+    ("MixedListStrLast", '[1, "a"]'), ("MixedListIntLast", '["a", 1]'), ("AppendedMixed", '[1, 2].append("x")'),
+    ("MixedDict", 'Dict["k" => 1, "j" => "s"]'),
 ]
 SAMPLE = [("Int", "1"), ("String", '"abc"'), ("Path", 'Path{ p: "c02_scratch.txt" }')]
 
